@@ -2,11 +2,19 @@
 import json, os, re, hashlib
 from vlib import env, tlc, report, jobs, refgen
 
-PSETS = {
-    1: dict(rule='trypsin', exc='', misc=0, min_len=3, max_len=25, min_mw='0.00005'),
-    2: dict(rule='trypsin', exc='', misc=2, min_len=3, max_len=25, min_mw='0.00005'),
-    3: dict(rule='lysc', exc='', misc=1, min_len=2, max_len=30, min_mw='0.00005'),
-}
+# a family of parameter sets that differ from the base in exactly one field each; every replayed history maps the spec's
+# three abstract parameter sets to the base and two other members (so "differs only in the exception / the maximal
+# length / ..." all occur), and all members must give pairwise different pools on the reference
+BASE = dict(rule='trypsin', exc='trypsin_exception', misc=1, min_len=3, max_len=20, min_mw='0.00005')
+FAMILY = dict(base=BASE, exc=dict(BASE, exc=''), misc=dict(BASE, misc=2), minlen=dict(BASE, min_len=5),
+              maxlen=dict(BASE, max_len=12), minmw=dict(BASE, min_mw='700.00005'), rule=dict(BASE, rule='lysc', exc=''))
+
+
+def psets_for(i):
+    r = env.rng(f'c12-psets-{i}')
+    names = ['base'] + r.sample([k for k in FAMILY if k != 'base'], 2)
+    r.shuffle(names)
+    return {k + 1: n for k, n in enumerate(names)}
 
 
 def histories(tier, rep):
@@ -45,7 +53,7 @@ def pool_sig(pool):
     return hashlib.sha256('\n'.join(sorted(pool)).encode()).hexdigest()[:12]
 
 
-def compare(h, res, refsig, refdata):
+def compare(h, res, refsig, refdata, PSETS):
     """-> None or description of the first disagreement"""
     for k, (step, obs) in enumerate(zip(h, res)):
         r, post = step['r'], step['post']
@@ -88,7 +96,7 @@ def compare(h, res, refsig, refdata):
 
 def check_c12(tier):
     rep = report.Report('C12', tier)
-    rep.cov['rule'] = ("model: complete reachable state graph of IndexDir over 3 parameter sets (VIEW without history); "
+    rep.cov['rule'] = ("model: complete reachable state graph of IndexDir over 3 parameter sets (VIEW without history); the three abstract sets are bound, per history, to the base set and two members of a family that differ from it in exactly one field (exception, miscleavage, min/max length, min mass, rule); "
                        "impl: TLC-generated operation histories (simulation depth 7; thorough: every history of length 4 "
                        "over 2 parameter sets) replayed step by step against generateIndex/updateIndex/load_references with "
                        "status, metadata.json, pool files and loaded data compared after every step; non-trivial = history "
@@ -105,17 +113,28 @@ def check_c12(tier):
     hs = histories(tier, rep)
     work = env.scratch('c12_')
     rr = env.rng('c12')
-    ref = refgen.random_reference(rr, n_genes=3, coding_p=0.8, max_exons=2, aa_len=(25, 40))
-    paths = ref.write(os.path.join(work, 'ref'))
-    # reference pools (on the fly) for the three parameter sets
-    base = jobs.run_job('run_index_ops.py', dict(ref=paths, dir=os.path.join(work, 'none'),
-                                                 ops=[dict(op='fly', p=PSETS[k]) for k in (1, 2, 3)]))
-    if not base.get('ok') or any(o['status'] != 'ok' for o in base['results']):
-        rep.machinery(f"reference pools could not be computed: {base}")
-        return rep.finish()
-    refsig = {k: pool_sig(base['results'][k - 1]['pool']) for k in (1, 2, 3)}
-    if len(set(refsig.values())) != 3 or any(not base['results'][k]['pool'] for k in range(3)):
-        rep.machinery("the three parameter sets do not give three different non-empty pools")
+    names = list(FAMILY)
+    for attempt in range(10):
+        # proteins with trypsin-exception motifs, so that the exception changes the pool
+        b = refgen.Builder(rr)
+        for _ in range(3):
+            prot = 'M' + refgen.rand_protein(rr, rr.randrange(12, 20)) + rr.choice(['CKD', 'DKD', 'CKH', 'CRK', 'RRH', 'CKY']) + \
+                refgen.rand_protein(rr, rr.randrange(12, 20)) + rr.choice(['CKD', 'DKD', 'RRR', 'CRK']) + refgen.rand_protein(rr, 8)
+            u5 = rr.randrange(3, 9)
+            seq = refgen.rand_dna(rr, u5) + refgen.encode(rr, prot) + rr.choice(refgen.STOPS) + refgen.rand_dna(rr, 9)
+            b.add_gene(seq, rr.choice([1, -1]), rr.randrange(1, 3), True, u5, u5 + 3 * len(prot) + 3, (), (), prot)
+        ref = b.finish()
+        paths = ref.write(os.path.join(work, f'ref{attempt}'))
+        base = jobs.run_job('run_index_ops.py', dict(ref=paths, dir=os.path.join(work, 'none'),
+                                                     ops=[dict(op='fly', p=FAMILY[k]) for k in names]))
+        if not base.get('ok') or any(o['status'] != 'ok' for o in base['results']):
+            rep.machinery(f"reference pools could not be computed: {str(base)[:600]}")
+            return rep.finish()
+        famsig = {k: pool_sig(base['results'][j]['pool']) for j, k in enumerate(names)}
+        if len(set(famsig.values())) == len(names) and all(base['results'][j]['pool'] for j in range(len(names))):
+            break
+    else:
+        rep.machinery("the parameter family does not give pairwise different non-empty pools on 10 references")
         return rep.finish()
     refdata = {k: base['results'][0][k] for k in ('genome', 'proteome', 'coding', 'tx')}
     per = 12 if tier == 'quick' else 60
@@ -123,7 +142,7 @@ def check_c12(tier):
     for a in range(0, len(hs), per):
         chunk = hs[a:a + per]
         jl.append(dict(jobs=[dict(ref=paths, dir=os.path.join(work, f'd{a + i}'), sig=True,
-                                  ops=[dict(op=s['r']['op'], p=PSETS.get(s['r']['p']), force=s['r']['force'],
+                                  ops=[dict(op=s['r']['op'], p=FAMILY.get(psets_for(a + i).get(s['r']['p'])), force=s['r']['force'],
                                             symlink=s['r']['symlink'], field=s['r']['status']) for s in h])
                              for i, h in enumerate(chunk)]))
     results = jobs.run_jobs('run_index_ops.py', jl, timeout=3000)
@@ -133,13 +152,14 @@ def check_c12(tier):
             rep.machinery(f"index ops worker failed: {res.get('error')} {res.get('stderr', '')[-300:]}")
             return rep.finish()
         flat += res['results']
-    for h, res in zip(hs, flat):
-        ops = [(s['r']['op'], s['r']['p'], s['r']['force'], s['r']['symlink']) for s in h]
+    for hi, (h, res) in enumerate(zip(hs, flat)):
+        pm = psets_for(hi)
+        ops = [(s['r']['op'], pm.get(s['r']['p'], s['r']['p']), s['r']['force'], s['r']['symlink']) for s in h]
         key = env.canon_hash(ops)
         nontriv = any(s['r']['op'] == 'generate' and s['r']['status'] == 'ok' for s in h)
         rep.case(1, key if nontriv else None)
         rep.traces(1)
-        bad = compare(h, res, refsig, refdata)
+        bad = compare(h, res, {k: famsig[n] for k, n in pm.items()}, refdata, {k: FAMILY[n] for k, n in pm.items()})
         if bad:
             rep.violation(f"hist:{key}", f"history {ops}: {bad}", dict(history=h))
     if hs:
